@@ -145,6 +145,8 @@ def cart2polar(x, y):
         Polar coordinates
 
     """
+    # (floating point: squares of small-integer arrays would wrap around)
+    x, y = np.asarray(x, dtype=float), np.asarray(y, dtype=float)
     r = np.sqrt(x**2 + y**2)
     theta = np.arctan2(x, y)  # θ referenced to vertical
     return r, theta
